@@ -10,12 +10,15 @@ package local
 // outcome classes of the single catalog RPC a sync step makes (lastRPCErr() is the error that RPC returned)
 //@ pure rpcRefusedByACL() bool = acl.IsErrPermissionDenied(lastRPCErr()) || acl.IsErrNotFound(lastRPCErr())
 
+// every entry of the two maps is its own object (never the same *ServiceState / *CheckState under two ids)
+//@ pure entriesDistinct(l *State) bool = (forall a structs.ServiceID, b structs.ServiceID :: a != b && has(l.services, a) && has(l.services, b) ==> l.services[a] != l.services[b]) && (forall a structs.CheckID, b structs.CheckID :: a != b && has(l.checks, a) && has(l.checks, b) ==> l.checks[a] != l.checks[b])
+
 //@ func State.pruneCheck
 //@ props C16
 //@ requires l != nil
 //@ ensures[removed] !has(l.checks, id)
 //@ ensures[others-kept] forall k structs.CheckID :: k != id ==> (has(l.checks, k) <==> old(has(l.checks, k))) && l.checks[k] == old(l.checks[k])
-//@ modifies l.checks
+//@ modifies map:l.checks
 
 //@ func State.deleteService
 //@ props C16
@@ -23,10 +26,17 @@ package local
 //@ requires l != nil && l.tokens != nil
 //@ requires[entries-non-nil] (forall k structs.ServiceID :: has(l.services, k) ==> l.services[k] != nil) && (forall k structs.CheckID :: has(l.checks, k) ==> l.checks[k] != nil)
 //@ requires[present] has(l.services, key)
+//@ requires[entries-distinct] entriesDistinct(l)
 //@ ensures[confirmed-removal-forgets] key.ID != "" && (lastRPCErr() == nil || strings.Contains(lastRPCErr().Error(), "Unknown service")) ==> err == nil && !has(l.services, key)
 //@ ensures[acl-refusal-keeps-entry-marks-in-sync] key.ID != "" && !(lastRPCErr() == nil || strings.Contains(lastRPCErr().Error(), "Unknown service")) && rpcRefusedByACL() ==> err == nil && has(l.services, key) && l.services[key].InSync
 //@ ensures[failure-forgets-nothing] key.ID != "" && !(lastRPCErr() == nil || strings.Contains(lastRPCErr().Error(), "Unknown service")) && !rpcRefusedByACL() ==> err != nil && has(l.services, key) && l.services[key].InSync == old(l.services[key].InSync) && l.services[key].Deleted == old(l.services[key].Deleted)
 //@ ensures[other-services-kept] forall k structs.ServiceID :: k != key ==> (has(l.services, k) <==> old(has(l.services, k))) && l.services[k] == old(l.services[k])
+//@ ensures[this-entry-kept-or-removed] has(l.services, key) ==> l.services[key] == old(l.services[key])
+//@ ensures[rpc-accounting] rpcFails() >= old(rpcFails()) && (rpcFails() == old(rpcFails()) && key.ID != "" ==> err == nil && !has(l.services, key))
+//@ ensures[other-services-flags-kept] forall k structs.ServiceID :: k != key && has(l.services, k) ==> l.services[k].InSync == old(l.services[k].InSync) && l.services[k].Deleted == old(l.services[k].Deleted)
+//@ ensures[checks-only-pruned] forall k structs.CheckID :: has(l.checks, k) ==> old(has(l.checks, k)) && l.checks[k] == old(l.checks[k]) && l.checks[k].InSync == old(l.checks[k].InSync) && l.checks[k].Deleted == old(l.checks[k].Deleted)
+//@ loop 1 invariant[checks-only-pruned] forall k structs.CheckID :: has(l.checks, k) ==> old(has(l.checks, k)) && l.checks[k] == old(l.checks[k]) && l.checks[k].InSync == old(l.checks[k].InSync) && l.checks[k].Deleted == old(l.checks[k].Deleted)
+//@ loop 1 invariant[services-as-after-delete] !has(l.services, key) && (forall k structs.ServiceID :: k != key ==> (has(l.services, k) <==> old(has(l.services, k))) && l.services[k] == old(l.services[k]) && (has(l.services, k) ==> l.services[k].InSync == old(l.services[k].InSync) && l.services[k].Deleted == old(l.services[k].Deleted)))
 
 //@ func State.deleteCheck
 //@ props C16
@@ -34,10 +44,15 @@ package local
 //@ requires l != nil && l.tokens != nil
 //@ requires[entries-non-nil] forall k structs.CheckID :: has(l.checks, k) ==> l.checks[k] != nil
 //@ requires[present] has(l.checks, key)
+//@ requires[entries-distinct] entriesDistinct(l)
 //@ ensures[confirmed-removal-forgets] key.ID != "" && (lastRPCErr() == nil || strings.Contains(lastRPCErr().Error(), "Unknown check")) ==> err == nil && !has(l.checks, key)
 //@ ensures[acl-refusal-keeps-entry-marks-in-sync] key.ID != "" && !(lastRPCErr() == nil || strings.Contains(lastRPCErr().Error(), "Unknown check")) && rpcRefusedByACL() ==> err == nil && has(l.checks, key) && l.checks[key].InSync
 //@ ensures[failure-forgets-nothing] key.ID != "" && !(lastRPCErr() == nil || strings.Contains(lastRPCErr().Error(), "Unknown check")) && !rpcRefusedByACL() ==> err != nil && has(l.checks, key) && l.checks[key].InSync == old(l.checks[key].InSync) && l.checks[key].Deleted == old(l.checks[key].Deleted)
 //@ ensures[other-checks-kept] forall k structs.CheckID :: k != key ==> (has(l.checks, k) <==> old(has(l.checks, k))) && l.checks[k] == old(l.checks[k])
+//@ ensures[this-entry-kept-or-removed] has(l.checks, key) ==> l.checks[key] == old(l.checks[key])
+//@ ensures[rpc-accounting] rpcFails() >= old(rpcFails()) && (rpcFails() == old(rpcFails()) && key.ID != "" ==> err == nil && !has(l.checks, key))
+//@ ensures[other-checks-flags-kept] forall k structs.CheckID :: k != key && has(l.checks, k) ==> l.checks[k].InSync == old(l.checks[k].InSync) && l.checks[k].Deleted == old(l.checks[k].Deleted)
+//@ ensures[services-untouched] forall k structs.ServiceID :: (has(l.services, k) <==> old(has(l.services, k))) && l.services[k] == old(l.services[k]) && (has(l.services, k) ==> l.services[k].InSync == old(l.services[k].InSync) && l.services[k].Deleted == old(l.services[k].Deleted))
 
 //@ func State.syncCheck
 //@ props C16
@@ -45,10 +60,15 @@ package local
 //@ requires l != nil && l.tokens != nil
 //@ requires[entries-non-nil] (forall k structs.ServiceID :: has(l.services, k) ==> l.services[k] != nil) && (forall k structs.CheckID :: has(l.checks, k) ==> l.checks[k] != nil)
 //@ requires[present] has(l.checks, key) && l.checks[key].Check != nil
+//@ requires[entries-distinct] entriesDistinct(l)
 //@ ensures[success-marks-in-sync] lastRPCErr() == nil ==> err == nil && l.checks[key].InSync && l.nodeInfoInSync
 //@ ensures[acl-refusal-marks-in-sync] lastRPCErr() != nil && rpcRefusedByACL() ==> err == nil && l.checks[key].InSync && l.nodeInfoInSync == old(l.nodeInfoInSync)
 //@ ensures[failure-marks-nothing] lastRPCErr() != nil && !rpcRefusedByACL() ==> err != nil && l.checks[key].InSync == old(l.checks[key].InSync) && l.nodeInfoInSync == old(l.nodeInfoInSync)
 //@ ensures[entries-kept] (forall k structs.CheckID :: (has(l.checks, k) <==> old(has(l.checks, k))) && l.checks[k] == old(l.checks[k])) && (forall k structs.ServiceID :: (has(l.services, k) <==> old(has(l.services, k))) && l.services[k] == old(l.services[k]))
+//@ ensures[rpc-accounting] rpcFails() >= old(rpcFails()) && (rpcFails() == old(rpcFails()) ==> err == nil && l.checks[key].InSync)
+//@ ensures[other-checks-flags-kept] forall k structs.CheckID :: k != key && has(l.checks, k) ==> l.checks[k].InSync == old(l.checks[k].InSync) && l.checks[k].Deleted == old(l.checks[k].Deleted)
+//@ ensures[deleted-flag-kept] l.checks[key].Deleted == old(l.checks[key].Deleted)
+//@ ensures[services-untouched] forall k structs.ServiceID :: (has(l.services, k) <==> old(has(l.services, k))) && l.services[k] == old(l.services[k]) && (has(l.services, k) ==> l.services[k].InSync == old(l.services[k].InSync) && l.services[k].Deleted == old(l.services[k].Deleted))
 
 //@ func State.syncService
 //@ props C16
@@ -56,10 +76,16 @@ package local
 //@ requires l != nil && l.tokens != nil
 //@ requires[entries-non-nil] (forall k structs.ServiceID :: has(l.services, k) ==> l.services[k] != nil) && (forall k structs.CheckID :: has(l.checks, k) ==> l.checks[k] != nil && l.checks[k].Check != nil)
 //@ requires[present] has(l.services, key)
+//@ requires[entries-distinct] entriesDistinct(l)
 //@ ensures[success-marks-in-sync] lastRPCErr() == nil ==> err == nil && l.services[key].InSync && l.nodeInfoInSync
 //@ ensures[acl-refusal-marks-in-sync] lastRPCErr() != nil && rpcRefusedByACL() ==> err == nil && l.services[key].InSync && l.nodeInfoInSync == old(l.nodeInfoInSync)
 //@ ensures[failure-marks-nothing] lastRPCErr() != nil && !rpcRefusedByACL() ==> err != nil && l.services[key].InSync == old(l.services[key].InSync) && l.nodeInfoInSync == old(l.nodeInfoInSync) && (forall k structs.CheckID :: has(l.checks, k) ==> l.checks[k].InSync == old(l.checks[k].InSync))
 //@ ensures[entries-kept] (forall k structs.CheckID :: (has(l.checks, k) <==> old(has(l.checks, k))) && l.checks[k] == old(l.checks[k])) && (forall k structs.ServiceID :: (has(l.services, k) <==> old(has(l.services, k))) && l.services[k] == old(l.services[k]))
+//@ ensures[rpc-accounting] rpcFails() >= old(rpcFails()) && (rpcFails() == old(rpcFails()) ==> err == nil && l.services[key].InSync)
+//@ ensures[other-services-flags-kept] forall k structs.ServiceID :: k != key && has(l.services, k) ==> l.services[k].InSync == old(l.services[k].InSync) && l.services[k].Deleted == old(l.services[k].Deleted)
+//@ ensures[deleted-flags-kept] l.services[key].Deleted == old(l.services[key].Deleted) && (forall k structs.CheckID :: has(l.checks, k) ==> l.checks[k].Deleted == old(l.checks[k].Deleted) && (old(l.checks[k].InSync) ==> l.checks[k].InSync))
+//@ loop 2 invariant[checks-insync-monotone] forall k structs.CheckID :: has(l.checks, k) ==> (old(l.checks[k].InSync) ==> l.checks[k].InSync)
+//@ loop 3 invariant[checks-insync-monotone] forall k structs.CheckID :: has(l.checks, k) ==> (old(l.checks[k].InSync) ==> l.checks[k].InSync)
 
 //@ func State.syncNodeInfo
 //@ props C16
@@ -67,3 +93,29 @@ package local
 //@ requires l != nil && l.tokens != nil
 //@ ensures[success-marks-in-sync] lastRPCErr() == nil ==> err == nil && l.nodeInfoInSync
 //@ ensures[failure-marks-nothing] lastRPCErr() != nil && !rpcRefusedByACL() ==> err != nil && l.nodeInfoInSync == old(l.nodeInfoInSync)
+//@ ensures[rpc-accounting] rpcFails() >= old(rpcFails()) && (rpcFails() == old(rpcFails()) ==> err == nil)
+//@ ensures[entries-untouched] (forall k structs.CheckID :: (has(l.checks, k) <==> old(has(l.checks, k))) && l.checks[k] == old(l.checks[k]) && (has(l.checks, k) ==> l.checks[k].InSync == old(l.checks[k].InSync) && l.checks[k].Deleted == old(l.checks[k].Deleted))) && (forall k structs.ServiceID :: (has(l.services, k) <==> old(has(l.services, k))) && l.services[k] == old(l.services[k]) && (has(l.services, k) ==> l.services[k].InSync == old(l.services[k].InSync) && l.services[k].Deleted == old(l.services[k].Deleted)))
+
+// ---- C16: one anti-entropy pass over the local state. Whatever the map iteration order: if no RPC of the pass
+// failed, then afterwards no service or check entry is still marked Deleted (each was deregistered and forgotten) and
+// every remaining entry is InSync - in particular an entry that is Deleted is always handed to deregistration, even
+// when an earlier ACL refusal had marked it InSync.
+//@ func State.SyncChanges
+//@ props C16
+//@ results err
+//@ requires l != nil && l.tokens != nil
+//@ requires[entries-non-nil] (forall k structs.ServiceID :: has(l.services, k) ==> l.services[k] != nil && k.ID != "") && (forall k structs.CheckID :: has(l.checks, k) ==> l.checks[k] != nil && l.checks[k].Check != nil && k.ID != "")
+//@ requires[entries-distinct] entriesDistinct(l)
+//@ ensures[no-rpc-failure-means-services-converged] rpcFails() == old(rpcFails()) ==> forall k structs.ServiceID :: has(l.services, k) ==> !l.services[k].Deleted && l.services[k].InSync
+//@ ensures[no-rpc-failure-means-checks-converged] rpcFails() == old(rpcFails()) ==> forall k structs.CheckID :: has(l.checks, k) ==> !l.checks[k].Deleted && l.checks[k].InSync
+//@ loop 1 invariant[visited-done] rpcFails() == old(rpcFails()) ==> forall k structs.ServiceID :: range1_visited[k] && has(l.services, k) ==> !l.services[k].Deleted && l.services[k].InSync
+//@ loop 1 invariant[rpc-monotone] rpcFails() >= old(rpcFails())
+//@ loop 1 invariant[entries-distinct] entriesDistinct(l)
+//@ loop 1 invariant[entries-non-nil] (forall k structs.ServiceID :: has(l.services, k) ==> l.services[k] != nil && k.ID != "") && (forall k structs.CheckID :: has(l.checks, k) ==> l.checks[k] != nil && l.checks[k].Check != nil && k.ID != "")
+//@ loop 2 invariant[visited-done] rpcFails() == old(rpcFails()) ==> forall k structs.CheckID :: range2_visited[k] && has(l.checks, k) ==> !l.checks[k].Deleted && l.checks[k].InSync
+//@ loop 2 invariant[services-done] rpcFails() == old(rpcFails()) ==> forall k structs.ServiceID :: has(l.services, k) ==> !l.services[k].Deleted && l.services[k].InSync
+//@ loop 2 invariant[rpc-monotone] rpcFails() >= old(rpcFails())
+//@ loop 2 invariant[entries-distinct] entriesDistinct(l)
+//@ loop 2 invariant[service-entries-non-nil] forall k structs.ServiceID :: has(l.services, k) ==> l.services[k] != nil && k.ID != ""
+//@ loop 2 invariant[check-entries-non-nil] forall k structs.CheckID :: has(l.checks, k) ==> l.checks[k] != nil && k.ID != ""
+//@ loop 2 invariant[check-entries-have-checks] forall k structs.CheckID :: has(l.checks, k) ==> l.checks[k].Check != nil
